@@ -19,4 +19,9 @@ ASSUMPTIONS = [
 ]
 CONTRACTS = [c for c in _C04 if c.id.startswith("libpass.CryptContext")] + [shacrypt.passlib_contract("C20", False), shacrypt.libpass_contract("C20")]
 FINITE = [Finite("sha-crypt-tables-identical", shacrypt.tables_equal, "passlib and libpass carry identical _c_digest_offsets / transposition tables")]
+from contracts import c20_libpass  # noqa: E402
+
+CONTRACTS += c20_libpass.CONTRACTS
+LEMMAS = c20_libpass.LEMMAS
+MUTANTS = c20_libpass.MUTANTS
 BOUNDED = [Bounded("c20", "harness/c20.py", descr="cross verification passlib <-> libpass on grids", timeout=900)]
